@@ -10,6 +10,7 @@ $V/bin/build plain asan tsan || exit 2
 : > $V/seeded/RESULTS.txt.new
 for sd in $V/seeded/*/; do
   n=$(basename $sd); prop=${n%%-*}
+  [ -f $sd/superseded ] && { echo "$n $prop SUPERSEDED $(head -1 $sd/superseded)" | tee -a $V/seeded/RESULTS.txt.new; continue; }
   (cd $R && patch -p1 -s --dry-run < $sd/patch.diff >/dev/null 2>&1) || { echo "$n $prop DOES-NOT-APPLY" | tee -a $V/seeded/RESULTS.txt.new; continue; }
   (cd $R && patch -p1 -s < $sd/patch.diff)
   (cd $V && BXSIM_BUDGET_SCALE=${SCALE:-1} bin/check $prop quick > $SCR/log.$n 2>&1); rc=$?
